@@ -39,9 +39,22 @@ def decimal (n : Nat) : Bytes := (Nat.repr n).toList.map fun c => UInt8.ofNat c.
 /-- `commitIDKey(version)` -/
 def commitIDKey (h : Nat) : Bytes := cidPrefix ++ joinLenPrefix [decimal h]
 
-/-- `setCommitID`: the latest commit id (version 2^64-1) and the commit id of this version -/
-def cidPart (next : Nat) (b : BlockIn) : List BatchOp :=
-  [.put (mkKey lastPrefix maxVer) (cidVal next b.root), .put (mkKey (commitIDKey next) next) (cidVal next b.root)]
+/-- the version `setCommitID` writes the latest-commit pointer (`a/`) at: the reserved latest-state version
+2^64-1 (`SetAt(lastCommitIDPrefix, value, lssVersion)`, the code as it stands — derived from a generated fact in
+`Props/C09.lean`), or the version being committed (what a `Set` on the commit's versioned store would do) -/
+inductive PtrAt
+  | lss
+  | commitVersion
+  deriving DecidableEq, Repr
+
+def PtrAt.version (p : PtrAt) (next : Nat) : Nat :=
+  match p with
+  | .lss => maxVer
+  | .commitVersion => next
+
+/-- `setCommitID`: the latest-commit pointer and the commit id of this version -/
+def cidPart (ptr : PtrAt) (next : Nat) (b : BlockIn) : List BatchOp :=
+  [.put (mkKey lastPrefix (ptr.version next)) (cidVal next b.root), .put (mkKey (commitIDKey next) next) (cidVal next b.root)]
 def smtPart (next : Nat) (b : BlockIn) : List BatchOp :=
   b.smt.map fun e => .put (mkKey (cidPrefix ++ e.1) next) (rawAlive e.2)
 /-- latest + historical state + tombstone purge: exactly C10's `commitBatch` -/
@@ -55,25 +68,70 @@ inductive Shape
   deriving DecidableEq, Repr
 
 /-- the batches one block commit applies to the database -/
-def blockBatches (sh : Shape) (next : Nat) (b : BlockIn) : List (List BatchOp) :=
+def blockBatches (sh : Shape) (ptr : PtrAt) (next : Nat) (b : BlockIn) : List (List BatchOp) :=
   match sh with
-  | .single => [cidPart next b ++ smtPart next b ++ statePart next b ++ idxPart next b]
-  | .split => [cidPart next b ++ smtPart next b ++ statePart next b, idxPart next b]
+  | .single => [cidPart ptr next b ++ smtPart next b ++ statePart next b ++ idxPart next b]
+  | .split => [cidPart ptr next b ++ smtPart next b ++ statePart next b, idxPart next b]
 
 /-- the batches applied so far, in order -/
 abbrev Disk := List (List BatchOp)
 
 def dbOf (d : Disk) : DB := d.foldl applyBatch []
 
+/-- the record `getLatestCommitID` finds: it reads `a/` through a reader at the reserved version, i.e. the
+NEWEST `a/` record (versions sort newest first, so it is the first entry of that user key) -/
+def latestPointer (d : Disk) : Option Bytes :=
+  ((dbOf d).find? fun e => userKeyOf? e.1 == some lastPrefix).map (·.2)
+
 /-- `getLatestCommitID`: the height the store opens at -/
 def version (d : Disk) : Nat :=
-  match smGet (dbOf d) (mkKey lastPrefix maxVer) with
+  match latestPointer d with
   | some raw => heightOf raw
   | none => 0
 
-def commitBlock (sh : Shape) (d : Disk) (b : BlockIn) : Disk := d ++ blockBatches sh (version d + 1) b
+def commitBlock (sh : Shape) (ptr : PtrAt) (d : Disk) (b : BlockIn) : Disk :=
+  d ++ blockBatches sh ptr (version d + 1) b
 
-def run (sh : Shape) (d : Disk) (bs : List BlockIn) : Disk := bs.foldl (commitBlock sh) d
+def run (sh : Shape) (ptr : PtrAt) (d : Disk) (bs : List BlockIn) : Disk := bs.foldl (commitBlock sh ptr) d
+
+/-! ## `Rollback(target)`: one more batch -/
+
+/-- every versioned entry above `target` under the historical-state, indexer, commitment and commit-id
+prefixes (`pruneVersionWindow`; the latest state `s/` and the pointer `a/` live at the reserved version) -/
+def rollbackDels (db : DB) (target ver : Nat) : List BatchOp :=
+  (db.filter fun e =>
+    decide (target + 1 ≤ versionOf e.1) && decide (versionOf e.1 ≤ ver) &&
+    (hasPrefix hssPrefix e.1 || hasPrefix idxPrefix e.1 || hasPrefix cidPrefix e.1)).map fun e => BatchOp.del e.1
+
+/-- `Store.Rollback(target)`: delete what is above `target`, patch the latest state of the affected keys
+from the historical view at `target` (C10's `rollbackPatch`), and re-point the latest commit id — at the
+reserved version — to the commit id recorded for `target`. `none`: the error returns; `some []`-less:
+`target = version` is a no-op that applies no batch. -/
+def rollbackBatch (d : Disk) (target : Nat) : Option (Option (List BatchOp)) :=
+  let ver := version d
+  if target = 0 ∨ target > ver then none
+  else if target = ver then some none
+  else
+    match smGet (dbOf d) (mkKey (commitIDKey target) target) with
+    | none => none   -- "missing commit id at height"
+    | some cid =>
+      some (some (rollbackDels (dbOf d) target ver ++
+        rollbackPatch (dbOf d) target (pruneWindow (dbOf d) (target + 1) ver).2 ++
+        [.put (mkKey lastPrefix maxVer) cid]))
+
+/-- one step of a node's life -/
+inductive Ev
+  | block (b : BlockIn)
+  | rollback (target : Nat)
+
+def applyEv (sh : Shape) (ptr : PtrAt) (d : Disk) : Ev → Disk
+  | .block b => commitBlock sh ptr d b
+  | .rollback t =>
+    match rollbackBatch d t with
+    | some (some batch) => d ++ [batch]
+    | _ => d
+
+def runEv (sh : Shape) (ptr : PtrAt) (d : Disk) (evs : List Ev) : Disk := evs.foldl (applyEv sh ptr) d
 
 /-! observations on a (re)opened store -/
 
@@ -90,7 +148,7 @@ def rootAt (d : Disk) (h : Nat) : Option Bytes :=
   ((VS.mk (dbOf d) (version d)).getRaw (commitIDKey h)).map fun tv => (rawAlive tv.2 |> rootOf)
 /-- the root of the latest commit id -/
 def latestRoot (d : Disk) : Bytes :=
-  match smGet (dbOf d) (mkKey lastPrefix maxVer) with
+  match latestPointer d with
   | some raw => rootOf raw
   | none => []
 
